@@ -1,6 +1,6 @@
 """Engine E11: compression codecs (C16).  Model: spec/codecs/Codecs.tla (+CodecsOps.tla), judge: CodecsTrace.tla,
 driver: harness/cdriver (vh codecs)."""
-import copy, hashlib, json, os, random, re
+import copy, hashlib, json, os, random, re, threading
 from concurrent.futures import ThreadPoolExecutor
 from vlib import Inconclusive, read_ndjson, write_ndjson
 
@@ -171,7 +171,7 @@ class Gen:
         if self.tier == "quick":
             seqs += r.sample(all3, 120)
         else:
-            seqs += all3 + [[r.choice(WS) for _ in range(4)] for _ in range(400)]
+            seqs += all3 + [[r.choice(WS) for _ in range(4)] for _ in range(3000)]
         self.n_chunkings = {"framed": len(seqs), "unframed": 0}
         units = []
         for k, s in enumerate(seqs):
@@ -180,7 +180,7 @@ class Gen:
             units.append([wu, ru])
         r.shuffle(units)
         self.pack("framed", units, 6)
-        useqs = [[a] for a in WS] + [[a, b] for a in WS for b in WS] + r.sample(all3, 40 if self.tier == "quick" else 400)
+        useqs = [[a] for a in WS] + [[a, b] for a in WS for b in WS] + r.sample(all3, 40 if self.tier == "quick" else 1000)
         self.n_chunkings["unframed"] = len(useqs)
         units = []
         for k, s in enumerate(useqs):
@@ -202,7 +202,7 @@ class Gen:
                 for b in RS:
                     units.append([self.ruse_ref("snappy", r.choice(["framed", "unframed"]), enc, pc, total, self.reads([], b), blocks, pseed=ps)])
                 units.append([self.ruse_ref("snappy", "framed", enc, pc, total, self.reads([], "writeto"), blocks, pseed=ps)])
-                for _ in range(3 if self.tier == "quick" else 12):
+                for _ in range(3 if self.tier == "quick" else 40):
                     units.append([self.ruse_ref("snappy", "framed", enc, pc, total, self.reads(), blocks, pseed=ps)])
         r.shuffle(units)
         self.pack("refread", units, 8)
@@ -259,7 +259,7 @@ class Gen:
 
     def history_variants(self):
         r = self.rng
-        nprobe = 2 if self.tier == "quick" else 8
+        nprobe = 2 if self.tier == "quick" else 30
         self.n_probes = 0
         for codec, mode in [("snappy", "framed"), ("snappy", "unframed"), ("gzip", ""), ("lz4", ""), ("zstd", "")]:
             for _ in range(nprobe):
@@ -276,7 +276,7 @@ class Gen:
                 names = sorted(P)
                 for n in names:
                     hs.append(self.hist("probe-after-" + n, P[n] + probe))
-                for _ in range(4 if self.tier == "quick" else 10):
+                for _ in range(4 if self.tier == "quick" else 16):
                     pick = [r.choice(names) for _ in range(r.randint(2, 4))]
                     pre = []
                     for n in pick:
@@ -289,7 +289,7 @@ class Gen:
         r = self.rng
         payloads = [("rand", 1), ("rand", 1024), ("rep", 8192), ("text", 40000), ("rand", 70000), ("rep", 140000), ("text", 140000)]
         units = []
-        reps = 1 if self.tier == "quick" else 6
+        reps = 1 if self.tier == "quick" else 40
         for codec in OPAQUE:
             fp = 0.25 if codec in ("gzip", "lz4") else 0.0
             for pc, total in payloads:
@@ -369,20 +369,27 @@ def model_check(ctx, cov):
     d = ctx.specdir(ENGINE)
     thorough = ctx.tier == "thorough"
     cfgs = {
-        "writer": dict(ws=ALLW, mw=4 if thorough else 3, mf=1, budgets="BudgetsAll", singles=0, rw=0, refs="", trunc=0,
+        "writer": dict(ws=ALLW, mw=4 if thorough else 3, mf=2 if thorough else 1, budgets="BudgetsAll", singles=0, rw=0, refs="", trunc=0,
                        blocks="BlocksJava", parts="PartsWriter", invs=INVS),
-        "reader": dict(ws=ALLW if thorough else "1, 1024, 31744, 32768, 32769, 70000", mw=1, mf=0, budgets="BudgetsNone",
-                       singles=3 if thorough else 2, rw=1, refs="1, 1024, 40000, 70000, 140000", trunc=5, blocks="BlocksAny",
+        "reader": dict(ws=ALLW if thorough else "1, 32769, 70000", mw=1, mf=0, budgets="BudgetsNone",
+                       singles=3 if thorough else 2, rw=1, refs="1, 1024, 40000, 70000, 140000" if thorough else "1, 1024, 70000, 140000", trunc=5, blocks="BlocksAny",
                        parts="PartsReader", invs=INVS),
         "opaque": dict(ws="1", mw=0, mf=0, budgets="BudgetsNone", singles=0, rw=0, refs="", trunc=0, blocks="BlocksJava",
                        parts="PartsOpaque", invs="TypeOK HistoryFree"),
     }
     states = trans = 0
     cov["mc"] = {}
-    for name, c in cfgs.items():
+
+    def one(name):
+        c = cfgs[name]
         fn = "MC_gen_%s.cfg" % name
         open(os.path.join(d, fn), "w").write(MC_CFG % c)
-        r = ctx.tlc(ENGINE, "Codecs", fn, workers=16, timeout=1500 if thorough else 240, tag="mc-" + name)
+        return ctx.tlc(ENGINE, "Codecs", fn, workers=2 if name == "opaque" else 7, timeout=2400 if thorough else 300, tag="mc-" + name)
+
+    with ThreadPoolExecutor(max_workers=3) as ex:
+        results = dict(zip(cfgs, ex.map(one, cfgs)))
+    for name, c in cfgs.items():
+        r = results[name]
         if r["violated"] or r["error"] or r["timeout"] or "No error has been found" not in r["out"]:
             raise Inconclusive("model checking of Codecs.tla (%s) did not pass (%s): %s" % (name, r["violated"] or "error", r["out"][-2500:]))
         cov["mc"][name] = {"states": r["distinct"], "transitions": r["generated"], "depth": r["depth"], "wall_s": round(r["wall"], 1),
@@ -409,13 +416,45 @@ def shard(groups, k):
     return [s for s in shards if s]
 
 
-def drive(ctx, tag, hists):
+RETRY_LOCK = threading.Lock()
+
+
+def drive(ctx, tag, hists, isolate=True):
     sp = os.path.join(ctx.work, "cs-%s.ndjson" % tag)
     op = os.path.join(ctx.work, "ce-%s.ndjson" % tag)
     write_ndjson(sp, hists)
     p = ctx.run_vh(["codecs", "-scripts", sp, "-out", op], timeout=1500)
-    if p.returncode != 0:
-        raise Inconclusive("vh codecs failed on shard %s: %s" % (tag, (p.stderr or p.stdout)[-2000:]))
+    if p.returncode == 0:
+        return op
+    if not isolate:
+        return None
+    with RETRY_LOCK:
+        return drive_alone(ctx, tag, hists, sp, op, p)
+
+
+def drive_alone(ctx, tag, hists, sp, op, p):
+    # the shards run side by side; a codec that allocates gigabytes (a length prefix read from the wrong place) can get a
+    # process killed only because of its neighbours: first the same shard once more, on its own
+    p2 = ctx.run_vh(["codecs", "-scripts", sp, "-out", op], timeout=1500)
+    if p2.returncode == 0:
+        return op
+    # the process died (a fatal runtime error such as out of memory cannot be recovered inside the driver): find the history.
+    # A history is blamed only when it kills a process of its own twice in a row; it is then replaced by a "crash" line.
+    lines = []
+    culprits = 0
+    for k, h in enumerate(hists):
+        one = drive(ctx, "%s-i%d" % (tag, k), [h], isolate=False)
+        if one is None and drive(ctx, "%s-j%d" % (tag, k), [h], isolate=False) is None:
+            culprits += 1
+            u = h["uses"][-1]
+            lines += [{"ev": "hist", "id": h["id"], "class": h["class"]},
+                      {"ev": "crash", "hid": h["id"], "u": len(h["uses"]), "kind": u["kind"], "codec": u["codec"], "mode": u["mode"], "key": u["key"],
+                       "crash": "the process running this history died (exit status %s)" % p.returncode}]
+        else:
+            lines += read_ndjson(one or os.path.join(ctx.work, "ce-%s-j%d.ndjson" % (tag, k)))
+    if not culprits:
+        raise Inconclusive("vh codecs failed on shard %s but on none of its histories alone: %s" % (tag, (p.stderr or p.stdout)[-2000:]))
+    write_ndjson(op, lines)
     return op
 
 
@@ -460,14 +499,30 @@ def evaluate(ctx, shards, paths, res, cov):
         evs = read_ndjson(path)
         byid = {h["id"]: h for h in hists}
         hist_bad = set()
+        last_bad = {}
         for ln, e in enumerate(evs, 1):
+            if e["ev"] == "crash":
+                hist_bad.add(e["hid"])
+                uses += 1
+                if len(ctx.violations) + len(ctx.known) < 12:
+                    rep = ctx.save_replay("%s-u%d-Crash" % (e["hid"], e["u"]), [("script.json", json.dumps(byid[e["hid"]])), ("tlc.txt", r["out"][-5000:])])
+                    ctx.violation("the %s codec crashed in use %d of history %s: %s" % (e["codec"], e["u"], e["hid"], e["crash"]), rep,
+                                  key="%s%s/%s Crash history=%s use=%d %s" % (e["codec"], "/" + e["mode"] if e["mode"] else "", e["kind"],
+                                                                               byid[e["hid"]]["class"], e["u"], e["crash"][:200]))
+                else:
+                    ctx.violations.append(("further violation in history %s" % e["hid"], ""))
+                continue
             if e["ev"] != "use":
                 continue
             uses += 1
+            was_bad = last_bad.get((e["hid"], e["obj"]), False)
+            last_bad[(e["hid"], e["obj"])] = bool(e.get("failed")) or any(o.get("res") in ("err", "stuck") or o.get("err") for o in e["ops"]) \
+                or (e["kind"] == "r" and e.get("final") != "eof")
             k = e["codec"] + ("/" + e["mode"] if e["mode"] else "") + "/" + e["kind"]
-            per.setdefault(k, {"uses": 0, "accepted": 0, "pooled_object": 0, "after_failed_or_abandoned": 0})
+            per.setdefault(k, {"uses": 0, "accepted": 0, "pooled_object": 0, "after_failed_or_unfinished": 0})
             per[k]["uses"] += 1
             per[k]["pooled_object"] += 1 if e["reused"] else 0
+            per[k]["after_failed_or_unfinished"] += 1 if (e["reused"] and was_bad) else 0
             cls = bad.get(ln, set())
             if e["kind"] == "w" and e["codec"] == "snappy" and e["mode"] == "framed" and maxblk.get(ln, 0) > maxblock:
                 maxblock, maxblock_hist = maxblk[ln], e["hid"]
@@ -506,9 +561,12 @@ def evaluate(ctx, shards, paths, res, cov):
 
 def concurrency(ctx, cov):
     out = os.path.join(ctx.work, "conc.ndjson")
-    g, it = (16, 12) if ctx.tier == "quick" else (32, 120)
+    g, it = (16, 12) if ctx.tier == "quick" else (32, 400)
     p = ctx.run_vh(["codecs", "-conc", str(g), "-iters", str(it), "-out", out], timeout=1500)
     if p.returncode != 0:
+        if ctx.violations:
+            ctx.notes.append("the concurrency run died: " + (p.stderr or p.stdout)[-400:])
+            return
         raise Inconclusive("vh codecs -conc failed: " + (p.stderr or p.stdout)[-2000:])
     bad, _, r = judge(ctx, "conc", out)
     evs = read_ndjson(out)
@@ -524,16 +582,21 @@ def concurrency(ctx, cov):
 
 def run(ctx):
     cov = {"engine": ENGINE}
-    model_check(ctx, cov)
+    ctx.specdir(ENGINE)
+    ctx.vh()
+    mc_pool = ThreadPoolExecutor(max_workers=1)
+    mc = mc_pool.submit(model_check, ctx, cov)       # the model is checked while the real codecs are driven and judged
     gen = Gen(ctx.seed, ctx.tier)
     groups = gen.all()
     shards = shard(groups, 14)
     nh = sum(len(g) for g in groups)
     ctx.log("generated %d histories (%d uses) in %d shards" % (nh, sum(len(h["uses"]) for g in groups for h in g), len(shards)))
-    ctx.vh()
-    paths, res = run_and_judge(ctx, shards, cov)
-    div = evaluate(ctx, shards, paths, res, cov)
-    concurrency(ctx, cov)
+    try:
+        paths, res = run_and_judge(ctx, shards, cov)
+        div = evaluate(ctx, shards, paths, res, cov)
+        concurrency(ctx, cov)
+    finally:
+        mc.result()          # raises Inconclusive when the model itself does not pass
     cov["write_chunkings"] = gen.n_chunkings
     cov["probe_groups"] = gen.n_probes
     cov["write_sizes"], cov["read_buffer_sizes"] = WS, RS
